@@ -180,6 +180,20 @@ theorem soc_bounds (svc : Service α) (eng : SpeedEngine α) (v : Vehicle α) (f
     · rename_i st1 h1
       exact ih st1 (traverseEdge_socOk h1 h0) h
 
+/-- for a battery vehicle one traversed edge is enough: whatever the charge before (even out of
+range), it is within 0–100 after the edge -/
+theorem soc_bounds_after_edge (svc : Service α) (eng : SpeedEngine α) (v : Vehicle α) (fu : FeatureUnits)
+    (e : Edge α) (st st' : VState α × Caches K α) (hv : ∀ r, v ≠ .ice r)
+    (h : traverseEdge svc eng v fu e st = .ok st') :
+    0 ≤ st'.1.soc ∧ st'.1.soc ≤ 100 := by
+  obtain ⟨s1, grade, _, _, rfl⟩ := traverseEdge_ok h
+  cases v with
+  | ice r => exact absurd rfl (hv r)
+  | bev r b => exact updateSoc_bounds _ _ _
+  | phev sus dep b =>
+    simp only [Vehicle.consumeEnergy]
+    split <;> exact updateSoc_bounds (α := α) _ _ _
+
 /-- the initial state's charge is within 0–100 for every vehicle (whatever its start energy) -/
 theorem soc_initial_bounds (v : Vehicle α) : 0 ≤ v.initialState.soc ∧ v.initialState.soc ≤ 100 := by
   cases v with
@@ -837,6 +851,7 @@ theorem cache_rounding_counterexample :
 
 /-- a BEV whose battery capacity is configured in gallons of gasoline while its rate is in kWh per mile -/
 def cxMixedBev : Vehicle ℚ := .bev cxRec { capacity := 2, startEnergy := 1, unit := .gallonsGasoline }
+def exBevCx : Vehicle ℚ := .bev cxRec { capacity := 60, startEnergy := 60, unit := .kilowattHours }
 def cxMixedUnits : FeatureUnits :=
   { time := .hours, distance := .miles, liquid := .gallonsGasoline, electric := .gallonsGasoline }
 
@@ -851,6 +866,21 @@ theorem best_case_state_unit_mix_counterexample :
         ≠ clamp (cxMixedBev.initialState.soc
             - 100 * EnergyUnit.kilowattHours.convert .gallonsGasoline (cxMixedBev.bestCaseEnergy 10 .miles).1 / 2)
             0 100 := by
+  decide +kernel
+
+/-
+Full statement of `soc_start` / `soc_rejected` / `soc_bounds` over *every* way a query can set the
+starting charge: besides `starting_soc_percent` (range-checked by `update_from_query`, theorems
+`soc_rejected`, `soc_start`) the query's `state_features` section may replace the `battery_state`
+feature, and its initial value is taken as is.  The theorems above therefore carry the hypothesis
+"the route starts from `initialState`" (or `0 ≤ soc ≤ 100` at the start); without it:
+-/
+/-- Defect witness (`state_features/soc-unchecked`): a query with `starting_soc_percent = 50` and a
+`state_features.battery_state` whose initial value is 250 is accepted and the route starts at 250 %. -/
+theorem state_features_soc_counterexample :
+    (match exBevCx.updateFromQuery (.num 50) with
+      | .ok v' => decide ((v'.initialStateWith (some 250)).soc = 250 ∧ ¬ (v'.initialStateWith (some 250)).soc ≤ 100)
+      | .error _ => false) = true := by
   decide +kernel
 
 /-! ## Non-vacuity: a concrete world in which the hypotheses hold and every branch is taken -/
